@@ -172,7 +172,10 @@ func HarnessC14Real() {
 		}
 	}
 	// article:* properties, before or after og:type
-	artOrder := vx.Choose("article", 4)
+	artOrder := vx.Choose("article", 9)
+	// 4..8: exactly one article:* property, after og:type (round k): any single
+	// one of them makes the OpenGraph source "have" an article record
+	artSingles := [][2]string{{"section", "og-section"}, {"published_time", "2020-01-02"}, {"modified_time", "2020-02-03"}, {"expiration_time", "2021-03-04"}, {"author", "http://h.t/og-author"}}
 	artSec := `<meta property="article:section" content="og-section">`
 	artTime := `<meta property="article:published_time" content="2020-01-02">`
 	before := func(x string) {
@@ -190,6 +193,8 @@ func HarnessC14Real() {
 	case 3: // one before, one after
 		before(artSec)
 		head += artTime
+	case 4, 5, 6, 7, 8:
+		head += `<meta property="article:` + artSingles[artOrder-4][0] + `" content="` + artSingles[artOrder-4][1] + `">`
 	}
 	// a property with a real value may be preceded by an empty placeholder
 	// occurrence of itself: the block still provides that value
@@ -272,6 +277,17 @@ func HarnessC14Real() {
 		vx.Assert(info.Article.PublishedTime == "2020-01-02", "an article:* property that follows og:type in a valid OpenGraph block is missing from the article record")
 		if artOrder == 1 {
 			vx.Assert(info.Article.Section == "og-section", "the article record of a valid OpenGraph block is incomplete")
+		}
+	}
+	if ogAll && !ogWebsite && artOrder >= 4 {
+		vx.Cover("og-article-single")
+		got := map[string]string{"section": info.Article.Section, "published_time": info.Article.PublishedTime, "modified_time": info.Article.ModifiedTime, "expiration_time": info.Article.ExpirationTime, "author": strings.Join(info.Article.Authors, "|")}
+		for _, kv := range artSingles {
+			want := ""
+			if kv[0] == artSingles[artOrder-4][0] {
+				want = kv[1]
+			}
+			vx.Assert(got[kv[0]] == want, "the article record is not the one of the valid OpenGraph block, which provides only article:"+artSingles[artOrder-4][0]+" (field "+kv[0]+")")
 		}
 	}
 	if ogAll {
